@@ -391,3 +391,163 @@ theorem include_paths_anchor (W : World) (wd L : String) (chain : List String) (
     · intro hpd habs; simp [resolveFirst, hpd, habs]
 
 end CV.Include
+
+namespace CV.Include
+open CV CV.Val
+
+/-! ## include = paste -/
+
+theorem resourceOf_congr {m m' : KVs} {k : String} (h : lookup k m' = lookup k m) (n : String) :
+    resourceOf m' k n = resourceOf m k n := by
+  simp only [resourceOf, h]
+
+theorem targetSection_lookup {tgt to : KVs} {k : String} (h : targetSection k tgt = some to) (n : String) :
+    lookup n to = resourceOf tgt k n := by
+  simp only [targetSection] at h
+  simp only [resourceOf]
+  split at h
+  · cases h; rename_i hl; simp [hl, lookup]
+  · cases h; rename_i hl; simp [hl, lookup]
+  · cases h; rename_i hl; simp [hl]
+  · cases h
+
+/-- one section after a successful import: own definition first, else the imported one -/
+theorem importResource_resource {src tgt r : KVs} {k : String} (h : importResource src tgt k = .ok r) (n : String) :
+    resourceOf r k n = match resourceOf tgt k n with
+      | some v => some v
+      | none => resourceOf src k n := by
+  simp only [importResource] at h
+  split at h
+  · rename_i hs; cases h
+    have hsn : resourceOf src k n = none := by simp only [resourceOf, hs]
+    rw [hsn]; cases resourceOf tgt k n <;> rfl
+  · rename_i hs; cases h
+    have hsn : resourceOf src k n = none := by simp only [resourceOf, hs]
+    rw [hsn]; cases resourceOf tgt k n <;> rfl
+  · rename_i hs1 hs2
+    split at h
+    · cases h
+    · rename_i to hto
+      split at h
+      · rename_i f
+        obtain ⟨to', h1, h2⟩ := bind_eq_ok h
+        cases h2
+        have hr : resourceOf (Val.insert k (.map to') tgt) k n = lookup n to' := by
+          simp only [resourceOf, lookup_insert_self]
+        have hsrc : resourceOf src k n = lookup n f := by
+          simp only [resourceOf, hs2]
+        rw [hr, importEntries_lookup f to to' h1 n, targetSection_lookup hto n, hsrc]
+      · cases h
+
+end CV.Include
+
+namespace CV.Include
+open CV CV.Val
+
+theorem importKinds_paste (src : KVs) :
+    ∀ (ks : List String) (tgt r : KVs), ks.Nodup → importKinds src ks tgt = .ok r →
+      (∀ k, k ∈ ks → ∀ n, resourceOf r k n = match resourceOf tgt k n with
+          | some v => some v
+          | none => resourceOf src k n) ∧
+      (∀ k, k ∉ ks → lookup k r = lookup k tgt)
+  | [], tgt, r, _, h => by
+    simp only [importKinds] at h; cases h
+    exact ⟨fun k hk => absurd hk (List.not_mem_nil), fun _ _ => rfl⟩
+  | k0 :: ks, tgt, r, hnd, h => by
+    simp only [List.nodup_cons] at hnd
+    simp only [importKinds] at h
+    obtain ⟨r0, h0, h1⟩ := bind_eq_ok h
+    obtain ⟨ih1, ih2⟩ := importKinds_paste src ks r0 r hnd.2 h1
+    constructor
+    · intro k hk n
+      rcases List.mem_cons.mp hk with e | hk'
+      · subst e
+        rw [resourceOf_congr (ih2 k hnd.1) n]
+        exact importResource_resource h0 n
+      · have hne : k ≠ k0 := by intro e; subst e; exact hnd.1 hk'
+        rw [ih1 k hk' n, resourceOf_congr (importResource_frame h0 hne) n]
+    · intro k hk
+      have hne : k ≠ k0 := by intro e; subst e; exact hk List.mem_cons_self
+      have hk' : k ∉ ks := fun hm => hk (List.mem_cons_of_mem _ hm)
+      rw [ih2 k hk', importResource_frame h0 hne]
+
+/-- a successful `importResources` is the section-wise union (own definitions first); nothing else moves -/
+theorem importResources_paste (src tgt r : KVs) (h : importResources src tgt = .ok r) :
+    (∀ k, k ∈ resourceKinds → ∀ n, resourceOf r k n = match resourceOf tgt k n with
+        | some v => some v
+        | none => resourceOf src k n) ∧
+    (∀ k, k ∉ resourceKinds → lookup k r = lookup k tgt) :=
+  importKinds_paste src resourceKinds tgt r (by decide) h
+
+/-- importing the included models one after the other -/
+def importAll : List KVs → KVs → Out KVs
+  | [], model => .ok model
+  | im :: ims, model => (importResources im model).bind (importAll ims)
+
+theorem importAll_paste : ∀ (ims : List KVs) (model r : KVs), importAll ims model = .ok r →
+    (∀ k, k ∈ resourceKinds → ∀ n, resourceOf r k n = pastedResource model ims k n) ∧
+    (∀ k, k ∉ resourceKinds → lookup k r = lookup k model)
+  | [], model, r, h => by
+    simp only [importAll] at h; cases h
+    refine ⟨fun k _ n => ?_, fun _ _ => rfl⟩
+    simp only [pastedResource, firstDef]
+    cases hh : resourceOf model k n <;> rfl
+  | im :: ims, model, r, h => by
+    simp only [importAll] at h
+    obtain ⟨m1, h0, h1⟩ := bind_eq_ok h
+    obtain ⟨p1, p2⟩ := importResources_paste im model m1 h0
+    obtain ⟨q1, q2⟩ := importAll_paste ims m1 r h1
+    constructor
+    · intro k hk n
+      rw [q1 k hk n]
+      simp only [pastedResource, firstDef, p1 k hk n]
+      cases resourceOf model k n with
+      | some v => rfl
+      | none => rfl
+    · intro k hk; rw [q2 k hk, p2 k hk]
+
+/-- `includeAll` = load every entry on its own, then import the results in order (on success) -/
+theorem includeAll_split (W : World) (wd L : String) (env : Env) (chain : List String) :
+    ∀ (cfgs : List IncCfg) (model r : KVs), includeAll W wd L env chain cfgs model = .ok r →
+      ∃ ims, subLoads W wd L env chain cfgs = .ok ims ∧ importAll ims model = .ok r
+  | [], model, r, h => by
+    simp only [includeAll] at h; cases h
+    exact ⟨[], rfl, rfl⟩
+  | c :: cs, model, r, h => by
+    simp only [includeAll, includeOne] at h
+    obtain ⟨m1, h0, h1⟩ := bind_eq_ok h
+    obtain ⟨pl, hp, h0⟩ := bind_eq_ok h0
+    obtain ⟨env', he, h0⟩ := bind_eq_ok h0
+    obtain ⟨im, hl, h0⟩ := bind_eq_ok h0
+    obtain ⟨ims, hs, hi⟩ := includeAll_split W wd L env chain cs m1 r h1
+    refine ⟨im :: ims, ?_, ?_⟩
+    · simp only [subLoads, hp, he, hl, hs, bind_ok]
+    · simp only [importAll, h0, bind_ok, hi]
+
+/-- **include_eq_paste**: whenever `ApplyInclude` succeeds, the resulting document is the paste of the included
+projects as loaded on their own (`subLoads`: own working directory, own layered environment, same pipeline):
+for each of the five sections and each name, the including file's own definition if it has one, otherwise the
+definition from the first included model that has one; every other top-level key is the including file's, and
+`include` is gone.  (With `import_conflict_iff`: a name defined on both sides has equal values.) -/
+theorem include_eq_paste (W : World) (wd L : String) (env : Env) (chain : List String) (model r : KVs)
+    (h : applyInclude W wd L env chain model = .ok r) :
+    ∃ cfgs ims, loadIncludeConfig (lookup "include" model) = .ok cfgs ∧
+      subLoads W wd L env chain cfgs = .ok ims ∧
+      (∀ k, k ∈ resourceKinds → ∀ n, resourceOf r k n = pastedResource model ims k n) ∧
+      (∀ k, k ∉ resourceKinds → k ≠ "include" → lookup k r = lookup k model) ∧
+      lookup "include" r = none := by
+  simp only [applyInclude] at h
+  obtain ⟨cfgs, hc, h⟩ := bind_eq_ok h
+  obtain ⟨m, hm, h⟩ := bind_eq_ok h
+  cases h
+  obtain ⟨ims, hs, hi⟩ := includeAll_split W wd L env chain cfgs model m hm
+  obtain ⟨p1, p2⟩ := importAll_paste ims model m hi
+  refine ⟨cfgs, ims, hc, hs, ?_, ?_, lookup_erase_self "include" m⟩
+  · intro k hk n
+    have hne : k ≠ "include" := by intro e; subst e; revert hk; decide
+    rw [resourceOf_congr (lookup_erase_ne hne m) n]
+    exact p1 k hk n
+  · intro k hk hne
+    rw [lookup_erase_ne hne m, p2 k hk]
+
+end CV.Include
